@@ -15,8 +15,8 @@ import (
 
 const rule = "kind 0 (SignTx then Sender): the full sweep tx type {legacy, access list, dynamic fee, blob, set code} x signer {Frontier, Homestead, EIP155, Berlin, London, Cancun, Prague} x chain id {1, 1337, 2^63, 2^64+5, a 200-bit value} with a fresh random key each, then random combinations (typed-tx chain field 0 / equal / different, recovering signer equal or different, EIP155 chain id 0, chain id 2^256+7 for the uint256-typed txs, keys 1 and n-1); " +
 	"kind 1 (Sender on arbitrary V,R,S): validly signed txs mutated by the high-s twin, s in {n/2, n/2+1, 0, 1, n-1, n}, r in {0, 1, n-1, n, 2^256-1, >2^256}, V variants (other parity, +2, 0/1 vs 27/28 swapped, other chain, 2^64 offsets, negative), chain field changes, payload tampering, fully random V,R,S, under the same / chain+1 / a random signer; " +
-	"kind 2/9 (crypto level): (hash,r,s,v) from real signatures and the same boundary values with v in {0,1,2,3,27,28,255} (kind 9: recovery ids 4..7) through ValidateSignatureValues, Ecrecover, SigToPub, VerifySignature; kind 3: crypto.Sign round trips; kinds 4-6: MakeSigner/LatestSigner/LatestSignerForChainID on random fork configurations; kind 7: deriveChainId/isProtectedV/sanityCheckSignature on boundary V. " +
-	"Every case is run in the cgo build and in a CGO_ENABLED=0 build of the same harness and the observables compared. The recover/sign tables in a case are computed by the generator with crypto.Sign/crypto.Ecrecover. " +
+	"kind 2/9 (crypto level): (hash,r,s,v) from real signatures and the same boundary values with v in {0,1,2,3,27,28,255} (kind 9: recovery ids 4..7) through ValidateSignatureValues, Ecrecover, SigToPub, VerifySignature; kind 3: crypto.Sign round trips; kind 8: a handful of Ecrecover inputs also evaluated by the executable Coq curve Crypto/Secp.v; kinds 4-6: MakeSigner/LatestSigner/LatestSignerForChainID on random fork configurations; kind 7: deriveChainId/isProtectedV/sanityCheckSignature on boundary V. " +
+	"Every case is run in the cgo build and in a CGO_ENABLED=0 build of the same harness and the observables compared; Ecrecover, the public key of a private key and crypto.Sign's signatures are also compared with a textbook big.Int secp256k1 (refcurve.go) as a third oracle. The recover/sign tables in a case are computed by the generator with crypto.Sign/crypto.Ecrecover. " +
 	"Non-trivial: a kind-0 case whose guard holds (sign+recover evaluated, plus tamper/strictness probes), every kind 1,2,3,7,9 case and every config case; distinct = distinct case line."
 
 var chainIDs = []*big.Int{
@@ -298,7 +298,7 @@ func gen(r0 *Rng, tier string, emit func(Sx)) {
 	r := NewRng(r0.U64())
 	mult := 1
 	if tier == "thorough" {
-		mult = 20
+		mult = 10
 	}
 	// --- the full sweep: type x signer x chain id
 	for rep := 0; rep < mult; rep++ {
@@ -413,6 +413,28 @@ func gen(r0 *Rng, tier string, emit func(Sx)) {
 			hash[r.Intn(32)] ^= 1 << uint(r.Intn(8))
 		}
 		emit(L(I(kind), I(v), Big(rr), Big(s), B(hash)))
+	}
+	// --- a few Ecrecover cases against the executable Coq curve (slow: ~1-3 s each in the model)
+	for i := 0; i < 4*mult; i++ {
+		hash := r.Bytes(32)
+		sig, err := crypto.Sign(hash, randKey(r))
+		if err != nil {
+			panic(err)
+		}
+		rr, s, v := sigParts(sig)
+		switch i % 4 {
+		case 1: // the other recovery id
+			v ^= 1
+		case 2: // malleated twin
+			s.Sub(secpN, s)
+			v ^= 1
+		case 3: // random r: about half are not abscissas of curve points
+			rr = randBig(r, 256)
+			if rr.Sign() == 0 {
+				rr = bi(1)
+			}
+		}
+		emit(L(I(8), I(v), Big(rr), Big(s), B(hash)))
 	}
 	for i := 0; i < 150*mult; i++ {
 		hash := r.Bytes(32)
